@@ -48,6 +48,7 @@ MUTATORS = {"Angle.set", "Angle.set_radians", "Angle.set_ra",
             "Epoch.__init__", "Interpolation.__init__",
             "CurveFitting.__init__", "Earth.__init__", "Minor.__init__",
             "Ellipsoid.__init__", "Sun.__init__"}
+RETURNS_ARGUMENT = {"Epoch.Epoch.check_input_date"}
 RETURNS_NONE = {"set", "set_radians", "set_ra", "set_tolerance", "__init__"}
 EXCLUDE = {"main", "print_me", "utc2local"}
 EPOCH_PARAMS = ("epoch", "start_epoch", "final_epoch", "epoch0",
@@ -80,7 +81,8 @@ REQUIRED_CLAUSES = ["args-unchanged", "module-tables-unchanged",
                     "total-on-domain", "result-finite-and-typed",
                     "illtyped->TypeError|ValueError", "copies-independent",
                     "out-of-range->TypeError|ValueError|value",
-                    "reused-argument-objects", "results-own-their-state"]
+                    "reused-argument-objects", "results-own-their-state",
+                    "result-is-not-an-argument-object"]
 
 
 # ------------------------------------------------------------------ discovery
@@ -726,6 +728,13 @@ class Universe(object):
                     inst, short
             sig = inspect.signature(f)
             args = gen_args(rng, qual, sig)
+            # two epochs: now and then equal, or one object passed twice
+            ei = [i for i, a in enumerate(args)
+                  if type(a).__name__ == "Epoch"]
+            if len(ei) >= 2 and rng.random() < 0.2:
+                from pymeeus.Epoch import Epoch
+                args[ei[1]] = args[ei[0]] if rng.random() < 0.4 else \
+                    Epoch(args[ei[0]])
             return (lambda a: ap(f, a)), args, None, short
         except KeyError:
             self.without_generator.add(qual)
@@ -818,10 +827,17 @@ class Universe(object):
         if inst is not None:
             argids.add(id(inst))
         n = [0]
+        aliased = []
 
         def scrib(x, depth=0):
-            if depth > 4 or id(x) in argids:
-                return       # the argument itself handed back: caller's own
+            if depth > 4:
+                return
+            if id(x) in argids:
+                if type(x).__name__ in ("Angle", "Epoch", "list", "dict",
+                                        "Interpolation", "CurveFitting",
+                                        "Earth", "Ellipsoid", "Minor"):
+                    aliased.append(type(x).__name__)
+                return
             t = type(x).__name__
             if t == "Angle":
                 x.set(123.456)
@@ -849,6 +865,13 @@ class Universe(object):
         except Exception as ex:
             mon.error("scribble " + qual, ex)
             return
+        # a result that IS one of the caller's argument objects: modifying
+        # the result then modifies the argument.  Epoch.check_input_date is
+        # the documented exception (it hands an Epoch argument back as it is)
+        if qual not in RETURNS_ARGUMENT:
+            mon.check("result-is-not-an-argument-object", not aliased,
+                      lambda: {"target": qual, "args": args,
+                               "aliased_argument_types": aliased})
         if not n[0]:
             return
         mon.evals += 1
